@@ -489,7 +489,7 @@ struct Op {
 
 // ops: 0 default, 1 from-list{1,2,3}, 2 copy-construct a <- b, 3 copy-assign a = b, 4 move-assign a = move(b),
 //      5 push_back, 6 mutable index write, 7 clear, 8 destroy, 9 hand to Rust and back (solve result; ids only),
-//      10 self copy-assign, 11 read through Slice
+//      10 self copy-assign, 11 read through Slice, 12 write through a mutable Slice
 template <typename T>
 static bool run_program(const std::vector<Op> &prog, std::string &why) {
     const int H = 2;
@@ -583,6 +583,17 @@ static bool run_program(const std::vector<Op> &prog, std::string &why) {
                     }
                 }
                 break;
+            case 12:
+                if (!h[a] || h[a]->empty()) continue;
+                {
+                    // a mutable Slice taken from a (possibly shared) vector must detach it first:
+                    // writing through the slice may only change this handle
+                    resolvo::Slice<T> s = *h[a];
+                    s[0] = Elem<T>::make(fresh);
+                    (*m[a])[0] = fresh;
+                    ++fresh;
+                }
+                break;
             default:
                 break;
         }
@@ -613,6 +624,7 @@ static void run_containers(const char *tname, int depth) {
         alphabet.push_back({8, a, 0});
         alphabet.push_back({10, a, 0});
         alphabet.push_back({11, a, 0});
+        alphabet.push_back({12, a, 0});
     }
     const size_t A = alphabet.size();
     uint64_t total = 1;
